@@ -114,9 +114,14 @@ func (impl *pbAnyImpl) setAny(val *any_j5t.Any) error {
 func (impl *pbAnyImpl) getAny() (*any_j5t.Any, error) {
 	typeUrl := impl.value.Get(impl.typeUrlField).String()
 	typeName := strings.TrimPrefix(typeUrl, anyPrefix)
+	protoBytes := impl.value.Get(impl.valueField).Bytes()
+	if protoBytes == nil {
+		// an empty value is the valid encoding of a message with no fields set
+		protoBytes = []byte{}
+	}
 	return &any_j5t.Any{
 		TypeName: typeName,
-		Proto:    impl.value.Get(impl.valueField).Bytes(),
+		Proto:    protoBytes,
 	}, nil
 }
 
